@@ -85,6 +85,10 @@ inductive SOp where
   | resize (fc : Str) (n burst : Int)
   | acq (inst : Str) (rid : Int) (reqs : List (Str × Int)) (nows : List Int)
   | del (inst : Str)
+  | hb (inst : Str)
+  | cond (inst : Str)
+  | sweep (stale : List Str)
+  | unknown
 
 /-- absent or null = empty (Go's `omitempty`) -/
 def optHex (j : Json) (k : String) : Except String Str :=
@@ -108,6 +112,10 @@ def decOp (j : Json) : Except String SOp := do
     if nows.length < KG.Gen.C08.tbTries then throw "acq needs a clock reading for every try"
     pure (.acq (← optHex j "inst") (← J.getInt j "rid") reqs nows)
   | "del" => pure (.del (← optHex j "inst"))
+  | "hb" => pure (.hb (← optHex j "inst"))
+  | "cond" => pure (.cond (← optHex j "inst"))
+  | "sweep" => pure (.sweep (← (← optArr j "stale").mapM J.asHex))
+  | "unknown" => pure .unknown
   | k => throw s!"bad op {k}"
 
 /-- one op on the model store: new store and the reply as JSON -/
@@ -133,6 +141,10 @@ def stepStore (st : Store) : SOp → Store × Json
     let (st', rs) := doAcquire st inst rid nows reqs
     (st', Json.arr (rs.map encAcq).toArray)
   | .del inst => (deleteInstanceState st inst, Json.null)
+  | .hb inst => (heartbeat st inst, Json.null)
+  | .cond inst => (saveCondition st inst, Json.null)
+  | .sweep stale => (sweepTimeout st stale, Json.null)
+  | .unknown => (cleanupUnknown st, Json.null)
 
 def instancesOf (a b : G) : List Str := (keys a.states ++ keys b.states).eraseDups
 
@@ -203,6 +215,12 @@ def judgeOp (op : SOp) (reply : Json) (ghost : Ghost) (before after : FCs) : Exc
         else
           judgeViolations (instancesOf a b) (ghostOf ghost fc inst) b inst rid tokens ⟨r.accept, r.limit, .none⟩ a
       | _, _ => []
+  | .hb _ | .cond _ => pure []
+  | .sweep _ | .unknown =>
+    pure <| before.flatMap fun (n, fc) =>
+      match fc, findFC n after with
+      | .mif b, some (.mif a) => jcRemovals b a
+      | _, _ => []
   | .sync spec =>
     pure <| spec.flatMap fun s =>
       if (spec.filter fun q => q.name = s.name).length ≠ 1 then [] else
@@ -215,7 +233,8 @@ def doRun (a : Json) : Except String Json := do
   -- model
   let (_, outs) := ops.foldl (fun (acc : Store × List Json) op =>
     let (st', r) := stepStore acc.1 op
-    (st', acc.2 ++ [J.obj [("reply", r), ("snap", encFCs st'.fcs)]])) (Store.empty, [])
+    (st', acc.2 ++ [J.obj [("reply", r), ("snap", encFCs st'.fcs), ("clients", J.hexList st'.clients),
+      ("conds", J.hexList st'.conds)]])) (Store.empty, [])
   -- judge on the implementation's observations
   let judge ← match J.optObj a "impl" with
     | none => pure []
